@@ -152,6 +152,16 @@ add("C08", "model_checking",
     "bounded-exhaustive enumeration of derivation graphs x placements x first-use orders on the real implementation vs a reference interpreter",
     "DESIGN.md section 5 C08")
 
+add("C18", "fault_enumeration",
+    "For every scenario (first-use build through each entry point, rebuild after register / unregister, cache-miss resolution incl. call_next "
+    "chains and dependent dispatchers) an uncatchable exception is raised at every executed library source line of the operation, one "
+    "execution per fault point; after each fault every corpus value is probed through both entry points on its own replay and must "
+    "show the complete behaviour or fail loudly; plus four kinds of invalid method at every registration position.",
+    "Trusted: CPython sys.settrace line events; one fault per execution, striking at line starts; for a mutation that was interrupted both "
+    "the old and the new method set count as complete.",
+    "exhaustive fault-point enumeration: exception injected at every library line event (sys.settrace), followed by differential probes",
+    "DESIGN.md section 5 C18")
+
 ALL = [f"C{i:02d}" for i in range(1, 21)]
 REASON_PENDING = "check not built yet in this round (planned: DESIGN.md section 5); not claimed until its machinery exists"
 
